@@ -223,6 +223,22 @@ impl<'a> FullnameSerializer<'a> {
         }
     }
 
+    // whether the scope outside the element whose declarations were pushed
+    // last binds the given prefix to another namespace
+    pub(crate) fn is_prefix_rebound_outside(
+        &self,
+        prefix_id: PrefixId,
+        namespace_id: NamespaceId,
+    ) -> bool {
+        if self.stack.len() < 2 {
+            return false;
+        }
+        self.stack[self.stack.len() - 2]
+            .all_namespaces
+            .iter()
+            .any(|(p, n)| *p == prefix_id && *n != namespace_id)
+    }
+
     pub(crate) fn is_namespace_known(&self, namespace_id: NamespaceId) -> bool {
         self.top()
             .all_namespaces
